@@ -28,14 +28,19 @@ def hx(v):
 
 
 class Proc:
-    def __init__(self, exe):
+    def __init__(self, exe, env=None, prefix=None):
         self.exe = exe
+        self.env = dict(os.environ, **env) if env else None
+        self.prefix = prefix        # a line sent first to every process (model: "RZ 80" = redzone of the ASAN build)
 
     def _raw(self, lines, timeout):
-        rc, out, err = core.sh([self.exe], inp=("\n".join(lines) + "\n").encode(), timeout=timeout)
+        send = ([self.prefix] if self.prefix else []) + list(lines)
+        rc, out, err = core.sh([self.exe], inp=("\n".join(send) + "\n").encode(), timeout=timeout, env=self.env)
         res = out.split("\n")
         if res and res[-1] == "":
             res.pop()
+        if self.prefix and res:
+            res.pop(0)
         return rc, res, err
 
     def run(self, lines, timeout=900):
@@ -166,19 +171,49 @@ def rand_pp(rng, cap, allow_ldm=True):
 
 # ---------------------------------------------------------------------------------------------------------
 
-class Run:
+class CtxView:
+    """the check context with the case counts of the quick tier (used for the ASAN pass of the thorough tier)"""
     def __init__(self, ctx):
+        object.__setattr__(self, "_ctx", ctx)
+
+    def __getattr__(self, k):
+        return True if k == "quick" else getattr(object.__getattribute__(self, "_ctx"), k)
+
+
+class Run:
+    def __init__(self, ctx, variant="o1"):
         self.ctx = ctx
-        self.rng = random.Random(ctx.seed * 1000003 + 14)
-        self.model = Proc(core.build_extracted("c14model", "Extract/Extract_C14.v", "c14_driver.ml"))
-        self.c = Proc(core.build_harness("c14_harness", ["c14_harness.c"], variant="o1", extra_flags=["-w"]))
+        self.variant = variant
+        self.rng = random.Random(ctx.seed * 1000003 + 14 + (0 if variant == "o1" else 7))
+        mexe = core.build_extracted("c14model", "Extract/Extract_C14.v", "c14_driver.ml")
+        cexe = core.build_harness("c14_harness", ["c14_harness.c"], variant=variant, extra_flags=["-w"])
+        if variant == "asan":
+            # ASAN build: the workspace poisons its free space and puts ZSTD_CWKSP_ASAN_REDZONE_SIZE bytes around every
+            # object / aligned / buffer reservation; the model runs with the same redzone
+            rzv = gen_const("c_ZSTD_CWKSP_ASAN_REDZONE_SIZE")
+            self.model = Proc(mexe, prefix="RZ " + hx(rzv))
+            self.c = Proc(cexe, env=dict(ASAN_OPTIONS="detect_leaks=0:abort_on_error=0:allocator_may_return_null=1", UBSAN_OPTIONS="print_stacktrace=0"))
+        else:
+            self.model = Proc(mexe)
+            self.c = Proc(cexe)
         self.cap = 22 if ctx.quick else 25          # largest table log used in sessions
         self.mem_cap = (96 << 20) if ctx.quick else (900 << 20)
         self.disagreements = []                     # (kind, case, c, model)
         self.hist = {}
 
     def h(self, k, n=1):
+        if self.variant != "o1":
+            k = self.variant + ":" + k
         self.hist[k] = self.hist.get(k, 0) + n
+
+    def report(self, replay, what, key=None, cap=3):
+        """report an oracle failure on the implementation; at most [cap] per case kind (all are counted in the notes)"""
+        kind = replay.get("kind", "?")
+        self.nrep = getattr(self, "nrep", {})
+        self.nrep[kind] = self.nrep.get(kind, 0) + 1
+        self.h("oracle-failure:" + kind)
+        if self.nrep[kind] <= cap or key:
+            self.ctx.violation(replay, what=what, key=key)
 
     # ---- (1) estimate values -------------------------------------------------------------------------
     def value_cases(self):
@@ -219,7 +254,11 @@ class Run:
             self.h("value:" + kind)
             sig = ("value", kind, a == "ERR") + ((ln.split()[1],) if kind in ("ECCTX", "ECSTREAM") else (len(a),))
             self.ctx.count(sig)
-            if a != b:
+            if a.startswith("CRASH"):
+                bad += 1
+                self.report(dict(kind="estimator-crash", c_case=ln, c_result=a, model_result=b),
+                            "the size estimator itself crashes: %s -> %s (model: %s)" % (ln[:100], a[:60], b[:40]))
+            elif a != b:
                 bad += 1
                 self.disagreements.append(("value", ln, a, b))
         self.ctx.cov["traces_validated_against_impl"] += len(lines)
@@ -246,7 +285,16 @@ class Run:
             elif k == "PPS":
                 lines.append("EPP S " + pp_tokens(**cse["pp"]))
         res = par_run(self.c, lines)
-        return [None if r in ("ERR",) or r.startswith("BADPARAM") else int(r, 16) for r in res]
+        out = []
+        for ln, r in zip(lines, res):
+            if r.startswith("CRASH"):
+                self.report(dict(kind="estimator-crash", c_case=ln, c_result=r), "the size estimator itself crashes: %s -> %s" % (ln[:100], r[:60]))
+                out.append(None)
+            elif r == "ERR" or r.startswith("BADPARAM"):
+                out.append(None)
+            else:
+                out.append(int(r, 16))
+        return out
 
     def session_line(self, cse, placement, size):
         k = cse["kind"]
@@ -322,6 +370,12 @@ class Run:
         ctx, rng = self.ctx, self.rng
         cases = self.session_cases()
         ests = self.estimate_for(cases)
+        # model-side neededSpace of the level sessions (boundary-aimed sizes)
+        lv = [c for c in cases if c["kind"] in ("L", "LS") and -8 <= c["l"] <= 22]
+        nd = par_run(self.model, ["NEED %s %s %s" % ("L" if c["kind"] == "L" else "S", hx(c["l"]), hx(c["srcLen"] if c["kind"] == "L" else UNKNOWN)) for c in lv])
+        for c, n in zip(lv, nd):
+            if rng.random() < (0.5 if ctx.quick else 1.0):
+                c["need"] = int(n, 16)
         clines, meta = [], []
         for cse, est in zip(cases, ests):
             if est is None:
@@ -341,6 +395,10 @@ class Run:
                     sizes.append((est - d, rng.choice([0, 1, 1, 2, 9])))
             if rng.random() < 0.25:
                 sizes.append((rng.choice([0, 8, 5264, 5265, 20000, est // 2]), 1))
+            if cse.get("need"):
+                # the exact acceptance boundary of the size gate (from the model): neededSpace and neededSpace - 1
+                sizes.append((cse["need"], rng.choice([0, 1, 2, 6])))
+                sizes.append((cse["need"] - 1, rng.choice([0, 1, 3])))
             for size, placement in sizes:
                 clines.append(self.session_line(cse, placement, size))
                 meta.append((cse, size))
@@ -483,7 +541,7 @@ class Run:
             elif tag == "OK" and int(re.search(r"sizeof=([0-9a-f]+)", r).group(1), 16) < size:
                 what = "ZSTD_sizeof_CDict under-reports a static CDict"
             if what:
-                ctx.violation(dict(kind="cdict", c_case=cl, c_result=r, model_result=mres.get(i)), what=what)
+                self.report(dict(kind="cdict", c_case=cl, c_result=r, model_result=mres.get(i)), what)
                 continue
             mr = mres.get(i)
             if mr is not None:
@@ -519,7 +577,7 @@ class Run:
             elif int(a, 16) != e:
                 what = "ZSTD_estimateDDictSize(%d,%s) = %s, expected sizeof(ZSTD_DDict)+copy = %d" % (d, br, a, e)
             if what:
-                ctx.violation(dict(kind="ddict", c_case=cl, c_result=r), what=what)
+                self.report(dict(kind="ddict", c_case=cl, c_result=r), what)
 
     # ---- (4) streaming decoder ---------------------------------------------------------------------------
     def tie_decoder(self):
@@ -527,12 +585,18 @@ class Run:
         dctx = gen_const("sizeof_ZSTD_DCtx")
         lines, metas = [], []
 
-        def frames(n, wl_lo, wl_hi, maxB):
+        def win_of(wl):
+            return (1 << (10 + (wl >> 3))) * (8 + (wl & 7)) // 8
+
+        def frames(n, wl_lo, wl_hi, maxB, maxW):
             out = []
+            at = max([w for w in range(256) if win_of(w) <= max(maxW, 1024)] or [0])    # largest descriptor still inside the limit
             for _ in range(n):
                 k = rng.choice("uuks")
                 wl = rng.choice([0, 1, 7, 8, 9, 15, 16, 17, rng.randint(0, 255)])
                 wl = max(wl_lo, min(wl, wl_hi)) if k != "s" else 0
+                if k != "s" and rng.random() < 0.45:
+                    wl = min(255, max(0, at + rng.choice([0, 0, 0, 1, 1, -1])))       # at the limit / first one beyond / last but one
                 ln = rng.choice([0, 1, 2, 3, 4, 5, 255, 256, 257, 1000, 1023, 1024, 1025, 4000, 70000, 131071])
                 win = (1 << (10 + (wl >> 3))) * (8 + (wl & 7)) // 8 if k != "s" else ln
                 if k != "s":
@@ -553,7 +617,7 @@ class Run:
             buffered = rng.choice([1, 1, 1, 0])
             top = min(255, ((wlimit_log - 10) << 3) + 12) if mode != "D" else min(255, (17 << 3) + 9)
             lo = max(0, top - 20)
-            fr = frames(rng.choice([1, 2, 3, 6]), lo, top, maxB)
+            fr = frames(rng.choice([1, 2, 3, 6]), lo, top, maxB, maxW)
             static = 0
             if rng.random() < 0.5:
                 est = None  # filled below from the C estimate of maxW
@@ -607,6 +671,8 @@ class Run:
                     ctx.count(("dstream", bool(l[1]), l[0], l[5], t[0], k, ln < 4, "-" in t.split("/")[-1] if "/" in t else None))
                 if any(x in r for x in ("SEGV", "BADDECODE", "!alloc-before-reject", "!sizeof<live", "BADTOKEN", "CRASH")):
                     what = "streaming decoder misbehaves on a hand-made frame: %s" % r[:160]
+                elif any(t[0] == "E" for t in ftoks):
+                    what = "a valid hand-made frame fails with an unexpected error (neither windowTooLarge nor memory_allocation): %s" % r[:160]
                 elif not l[1] and peak > est:
                     what = "heap DStream holds %d bytes, more than ZSTD_estimateDStreamSize(maxWindowSize=%d) = %d" % (peak, l[3], est)
                 else:
@@ -624,7 +690,7 @@ class Run:
                             what = "static DStream of ZSTD_estimateDStreamSize(%d) cannot decode a frame with window %d <= limit" % (l[3], w)
                             break
             if what:
-                ctx.violation(dict(kind="dstream", c_case=cl, c_result=r, model_case=mlines[clines.index(cl)], model_result=mr), what=what)
+                self.report(dict(kind="dstream", c_case=cl, c_result=r, model_case=mlines[clines.index(cl)], model_result=mr), what)
                 continue
             if not r.startswith("NULL"):
                 ctx.cov["traces_validated_against_impl"] += 1
@@ -660,7 +726,7 @@ class Run:
             elif tag == "W" and maxWlog >= wlog:
                 what = "frame with windowLog %d rejected although the limit is 2^%d" % (wlog, maxWlog)
             if what:
-                ctx.violation(dict(kind="drt", c_case=ln, c_result=r), what=what)
+                self.report(dict(kind="drt", c_case=ln, c_result=r), what)
         # decodingBufferSize / frame window values
         vl = []
         for _ in range(300 if ctx.quick else 5000):
@@ -703,10 +769,220 @@ class Run:
             self.h("heap:" + r.split()[0])
             ctx.count(("heap", r.split()[0], ln.split()[1]))
             if r.startswith("OK") and ("!sizeof<live" in r or "failed=0" not in r or "null=0" not in r):
-                ctx.violation(dict(kind="heap", c_case=ln, c_result=r),
-                              what="heap CCtx: a reservation failed inside a workspace created from the estimate, or ZSTD_sizeof_CCtx under-reports: " + r[:120])
+                self.report(dict(kind="heap", c_case=ln, c_result=r),
+                            "heap CCtx: a reservation failed inside a workspace created from the estimate, or ZSTD_sizeof_CCtx under-reports: " + r[:120])
             elif not r.startswith(("OK", "BADPARAM")):
-                ctx.violation(dict(kind="heap", c_case=ln, c_result=r), what="heap CCtx compression failed: " + r[:120])
+                self.report(dict(kind="heap", c_case=ln, c_result=r), "heap CCtx compression failed: " + r[:120])
+
+
+    # ---- (6) histories on one static context: served iff it fits, whatever was executed before -----------------
+    HIST_SRCS = [0, 1, 999, 16 * KB, 16 * KB + 1, 100000, 128 * KB + 1, 300000]
+
+    def hist_cases(self):
+        rng, ctx = self.rng, self.ctx
+        cases = []
+        zero_pp = dict(lvl=3, cp=(0,) * 7, row=0, ldm=(0,) * 5, mbs=0, ext=0, inb=1, outb=1, nbw=0)
+        maxL = 16 if ctx.quick else 22
+        small = lambda: rng.choice([1, 999, 5000])
+        # (a) wear-out: > ZSTD_WORKSPACETOOLARGE_MAXDURATION small compressions inside a much larger static context,
+        #     then the large operation the context was sized for
+        dur = gen_const("c_ZSTD_WORKSPACETOOLARGE_MAXDURATION")
+        for L in ([maxL, 12, 6, 3] if ctx.quick else [22, 19, 16, 13, 12, 9, 6, 5, 3, 1]):
+            ops = ["L:1:%x*%x" % (small(), dur + 6), "L:%s:%x" % (hx(L), 100000), "L:1:%x*3" % small(), "L:%s:%x" % (hx(L), 300000)]
+            cases.append(dict(est=("ECCTX", L), pp=zero_pp, ops=ops, all_ok=True, shape=("wear", L)))
+        # (b) mixed levels l <= L, mixed source sizes
+        for _ in range(12 if ctx.quick else 120):
+            L = rng.randint(1, maxL)
+            ops = []
+            for _ in range(rng.randint(4, 9)):
+                l = rng.choice([L, L, rng.randint(1, L), rng.randint(1, L), rng.randint(-20, -1)] + ([0] if L >= 3 else []))
+                ops.append("L:%s:%x" % (hx(l), rng.choice(self.HIST_SRCS)))
+            cases.append(dict(est=("ECCTX", L), pp=zero_pp, ops=ops, all_ok=True, shape=("mixed", L > 12, len(ops))))
+        # (c) a refused request leaves the context usable: sized for level 3 (or 1), asked for more in between
+        for L, big in ((3, 19), (1, 9), (5, 13), (3, 16)):
+            ops = ["L:%s:%x" % (hx(L), 100000), "L:%s:%x" % (hx(big), 300000), "L:%s:%x" % (hx(L), 300000),
+                   "L:%s:%x" % (hx(big), 999), "L:%s:%x*4" % (hx(L), rng.choice(self.HIST_SRCS)), "L:%s:%x" % (hx(big), 300000), "L:1:%x" % 100000]
+            cases.append(dict(est=("ECCTX", L), pp=zero_pp, ops=ops, all_ok=False, shape=("refuse", L, big)))
+        # (d) explicit cParams: estimate*_usingCParams(c) + exactly c, compress2 / streaming with varying source sizes
+        cps = rng.sample(corner_cps(min(self.cap, 20)), 8 if ctx.quick else 40) + [rand_cp(rng, min(self.cap, 20)) for _ in range(10 if ctx.quick else 100)]
+        for cp in cps:
+            stream = rng.random() < 0.4
+            pp = dict(zero_pp); pp["cp"] = cp
+            ops = []
+            for _ in range(rng.randint(3, 7)):
+                if stream and rng.random() < 0.6:
+                    ops.append("S:%x" % rng.choice(self.HIST_SRCS[1:]))
+                else:
+                    ops.append("2:%x" % rng.choice(self.HIST_SRCS))
+            if rng.random() < 0.3:
+                ops.append("%s*%x" % (ops[0], dur + 3))
+            cases.append(dict(est=("ECSTREAMCP" if stream else "ECCTXCP", cp), pp=pp, ops=ops, all_ok=True,
+                              shape=("cp", cp[6], cp[4] == 3, stream)))
+        return cases
+
+    def hist_line(self, cse, placement, size, seed):
+        return "HIST %s %s %s %s %s" % (hx(placement), hx(size), hx(seed), pp_tokens(**cse["pp"]), " ".join(cse["ops"]))
+
+    @staticmethod
+    def hist_model_line(cline, start):
+        f = cline.split()
+        return "HIST %s %s %s" % (hx(start), f[2], " ".join(f[4:]))
+
+    @staticmethod
+    def hist_parse(r):
+        """-> dict(ops=[...], end=, dur=, failed=, log=) from a C or model HIST answer starting with OK"""
+        import re
+        out = dict(ops=[], end=None, dur=None, failed=None, log="")
+        body = r.split("ops=", 1)[1] if "ops=" in r else ""
+        for t in body.split():
+            if t.startswith("end="):
+                out["end"] = t[4:]
+            elif t.startswith("dur="):
+                out["dur"] = int(t[4:], 16)
+            elif t.startswith("failed="):
+                out["failed"] = t[7:]
+            elif t.startswith("log="):
+                out["log"] = t[4:]
+            elif t.startswith("sizeof="):
+                out["sizeof"] = int(t[7:], 16)
+            else:
+                out["ops"].append(t)
+        return out
+
+    @staticmethod
+    def hist_expand(ops):
+        out = []
+        for t in ops:
+            reps = 1
+            if "*" in t:
+                t, r = t.split("*")
+                reps = int(r, 16)
+            out += [t] * reps
+        return out
+
+    def hist_oracle(self, cse, size, est, r):
+        """direct oracle on the implementation for one history; returns a description or None"""
+        tag = r.split()[0] if r else "EMPTY"
+        if tag in ("SEGV", "CRASH", "EMPTY") or "BADROUNDTRIP" in r:
+            return "static CCtx of %d bytes, history of %d operations: %s - memory outside the block touched or output damaged" % (size, len(self.hist_expand(cse["ops"])), r[:80])
+        if tag == "NULL":
+            return ("ZSTD_initStaticCCtx refuses a block of the estimated size %d" % size) if size >= est else None
+        if tag != "OK":
+            return None
+        h = self.hist_parse(r)
+        ops = self.hist_expand(cse["ops"])
+        for i, (o, t) in enumerate(zip(ops, h["ops"])):
+            if t[0] not in "KM":
+                return "operation #%d (%s) of a history on a static CCtx fails with an unexpected error %s" % (i + 1, o, t)
+            if t == "M" and cse["all_ok"] and size >= est:
+                return ("static CCtx of the estimated size %d refuses operation #%d (%s) after %d served operations: a static context "
+                        "must not wear out" % (size, i + 1, o, sum(1 for x in h["ops"][:i] if x[0] == "K")))
+        if h.get("sizeof", size) < size:
+            return "ZSTD_sizeof_CCtx reports %d for a static context occupying %d bytes" % (h["sizeof"], size)
+        return None
+
+    def tie_history(self):
+        ctx, rng = self.ctx, self.rng
+        import re
+        cases = self.hist_cases()
+        ests = par_run(self.c, ["%s %s" % (c["est"][0], hx(c["est"][1]) if c["est"][0] == "ECCTX" else cp_str(c["est"][1])) for c in cases])
+        clines, meta = [], []
+        for cse, e in zip(cases, ests):
+            est = int(e, 16)
+            if est > self.mem_cap:
+                self.h("hist:skipped-over-memory-cap")
+                continue
+            sizes = [(est, rng.choice([0, 1, 1, 2, 5]))]
+            if rng.random() < 0.5:
+                sizes.append((est - rng.choice([1, 8, 64, 129, 4096]), rng.choice([0, 1, 3])))
+            for size, pl in sizes:
+                clines.append(self.hist_line(cse, pl, size, rng.randint(0, 999)))
+                meta.append((cse, size, est))
+        cres = par_run(self.c, clines, chunks=14, timeout=1500)
+        mlines, midx = [], []
+        for i, (cl, r) in enumerate(zip(clines, cres)):
+            m = re.search(r"start=([0-9a-f]+)", r)
+            if m:
+                mlines.append(self.hist_model_line(cl, int(m.group(1), 16)))
+                midx.append(i)
+        mres = dict(zip(midx, par_run(self.model, mlines)))
+        nviol = 0
+        for i, (cl, r) in enumerate(zip(clines, cres)):
+            cse, size, est = meta[i]
+            tag = r.split()[0] if r else "EMPTY"
+            self.h("hist:%s:%s" % (cse["shape"][0], tag if tag in ("OK", "NULL", "SEGV", "SKIP", "CRASH") else "OTHER"))
+            h = self.hist_parse(r) if tag == "OK" else dict(ops=[])
+            ctx.count(("hist", cse["shape"], tag, size >= est, "".join(sorted(set(t[0] for t in h["ops"])))), nontrivial=(tag in ("OK", "NULL")))
+            if tag == "SKIP":
+                continue
+            what = self.hist_oracle(cse, size, est, r)
+            mr = mres.get(i)
+            if what:
+                nviol += 1
+                if nviol <= 3:
+                    ctx.violation(dict(kind="history", c_case=cl, c_result=r[:2000], model_result=(mr or "")[:2000], estimate=est), what=what)
+                continue
+            if mr is None:
+                continue
+            ctx.cov["traces_validated_against_impl"] += 1
+            if not self.same_history(r, mr):
+                self.disagreements.append(("history", cl, r[:600], mr[:600], dict(cse=cse, size=size, est=est)))
+        ok = [(cl, r) for cl, r in zip(clines, cres) if r.startswith("OK")]
+        if ok:
+            ctx.sample(dict(kind="static-history", c_case=ok[0][0][:300], c_result=ok[0][1][:300]))
+        core.log("C14 histories: %d runs, %d oracle failures, %d model disagreements so far" % (len(clines), nviol, len(self.disagreements)))
+
+    def same_history(self, c, m):
+        ct, mt = c.split()[0], m.split()[0]
+        if ct != mt:
+            return False
+        if ct != "OK":
+            return True
+        a, b = self.hist_parse(c), self.hist_parse(m)
+        return all(a[k] == b[k] for k in ("ops", "end", "dur", "failed", "log"))
+
+    def search_history(self, seeds):
+        """a model/code disagreement on a history: replay it with every operation repeated beyond the oversize
+        duration (wear-out is the failure mode a history can add to a single session) and apply the direct oracle"""
+        found = []
+        dur = gen_const("c_ZSTD_WORKSPACETOOLARGE_MAXDURATION")
+        clines, meta = [], []
+        for d in seeds[:12]:
+            info = d[4]
+            cse, est = dict(info["cse"]), info["est"]
+            ops = self.hist_expand(cse["ops"])[:12]
+            cse["ops"] = ["%s*%x" % (o, dur + 4) for o in ops] + ops
+            for pl in (0, 1):
+                clines.append(self.hist_line(cse, pl, est, 1))
+                meta.append((cse, est))
+        res = par_run(self.c, clines, timeout=1500)
+        for cl, r, (cse, est) in zip(clines, res, meta):
+            what = self.hist_oracle(cse, est, est, r) if cse["all_ok"] else None
+            if what:
+                found.append((dict(kind="history", c_case=cl, c_result=r[:2000], estimate=est), what))
+                if len(found) >= 2:
+                    break
+        return found
+
+    def level_witnesses(self, which, L):
+        """model-side witness for a level estimate that differs: ask the model for the need of every covered level
+        l <= L at source sizes up to beyond the largest window, keep the (l, size) pairs whose need exceeds what the
+        CODE returns for L, cheapest first; they are then run on the implementation by search()"""
+        if L < 1 or L > 22:
+            return []
+        code = self.c.run(["%s %s" % (which, hx(L))])[0]
+        if code == "ERR":
+            return []
+        code = int(code, 16)
+        kind = "L" if which == "ECCTX" else "S"
+        sizes = [999, 16 * KB, 16 * KB + 1, 128 * KB, 128 * KB + 1, 256 * KB + 1, 1 << 20, (1 << 21) + 1, (1 << 22) + 1, (1 << 23) + 1]
+        if kind == "S":
+            sizes = [999]         # buffered streaming: the reset sees an unknown source size whatever the input length
+        q = [(l, s) for l in list(range(1, L + 1)) + ([0] if L >= 3 else []) for s in sizes]
+        needs = self.model.run(["NEED %s %s %s" % (kind, hx(l), hx(UNKNOWN if kind == "S" else s)) for l, s in q])
+        over = [(l, s) for (l, s), n in zip(q, needs) if int(n, 16) > code]
+        over.sort(key=lambda x: (x[1] * (1 + max(0, x[0] - 12) ** 2), x[0]))      # cheap to compress first
+        return [dict(kind="L" if kind == "L" else "LS", l=l, L=L, srcLen=s, seed=1) for l, s in over[:4]]
 
     # ---- SEARCH: a model/code disagreement or a broken proof is not yet a violation ----------------------------
     def search(self, seeds):
@@ -714,11 +990,15 @@ class Run:
         found = []
         rng = self.rng
         cases = []
+        hs = [d for d in seeds if d[0] == "history"]
+        if hs:
+            found += self.search_history(hs)
         for d in seeds[:40]:
             if d[0] == "value":
                 f = d[1].split()
                 if f[0] in ("ECCTX", "ECSTREAM"):
                     L = int(f[1].replace("-", "-0x") if f[1].startswith("-") else "0x" + f[1], 16)
+                    cases += self.level_witnesses(f[0], L)
                     for l in {L, max(1, L - 1), 1} if L >= 1 else {L}:
                         for s in (0, 999, 16 * KB + 1, 128 * KB + 1, 300000):
                             cases.append(dict(kind="L" if f[0] == "ECCTX" else "LS", l=l, L=L, srcLen=s, seed=1))
@@ -733,7 +1013,7 @@ class Run:
                         cases.append(dict(kind="PP2" if f[1] == "C" else "PPS", pp=pp, srcLen=s, seed=1))
             elif d[0] == "session" and len(d) > 4:
                 cases.append(dict(d[4]))
-        if not cases:
+        if not cases or len(found) >= 3:
             return found
         ests = self.estimate_for(cases)
         clines, meta = [], []
@@ -766,6 +1046,16 @@ def replay(ctx, obj):
     ctx.sample(dict(kind="replay", case=line, result=r))
     ctx.count(("replay", r.split()[0]))
     ctx.count(("replay-recorded", (rp.get("c_result") or "").split()[:1] and rp.get("c_result").split()[0]))
+    if line.split()[0] in ("ECCTX", "ECSTREAM", "ECCTXCP", "ECSTREAMCP", "EPP", "ECDICT", "ECDICTADV", "GETCP", "EDSTREAM", "EDDICT", "DBUF", "FWIN"):
+        first = (rp.get("first") or [[None, None, None, None]])[0]
+        if r.startswith("CRASH") or (first[1] == line and first[2] == r and first[3] != r):
+            ctx.violation(rp, what="replay reproduces: %s -> %s%s" % (line[:120], r[:80], (" (model: %s)" % first[3]) if first[3] else ""))
+        return
+    if line.startswith("HIST "):
+        toks = Run.hist_parse(r)["ops"] if r.startswith("OK") else []
+        if not r.startswith("OK") or any(t[0] != "K" for t in toks):
+            ctx.violation(rp, what="replay reproduces: " + r[:200])
+        return
     if r.split()[0] != "OK" or (rp.get("c_result") and rp["c_result"].split()[0] == r.split()[0] and r.split()[0] != "OK"):
         ctx.violation(rp, what="replay reproduces: " + r[:200])
 
@@ -790,6 +1080,21 @@ def run(ctx):
     r.tie_dicts()
     r.tie_decoder()
     r.tie_heap()
+    r.tie_history()
+    if not ctx.quick:
+        # supporting test: the same ties against an ASAN+UBSAN build (workspace poisoning + redzones: a write between
+        # two reserved objects is reported by ASAN; the model runs with the redzone of that build)
+        ra = Run(CtxView(ctx), variant="asan")
+        ra.hist = r.hist
+        n0 = len(r.disagreements)
+        ra.disagreements = r.disagreements
+        ra.tie_values()
+        ra.tie_sessions()
+        ra.tie_dicts()
+        ra.tie_heap()
+        ra.tie_history()
+        ctx.notes["asan_pass"] = "values, sessions, static CDict/DDict, heap, histories re-run against the asan build with redzone %s; %d new disagreements" % (
+            hx(gen_const("c_ZSTD_CWKSP_ASAN_REDZONE_SIZE")), len(r.disagreements) - n0)
     ctx.notes["case_histogram"] = dict(sorted(r.hist.items()))
     # verdict
     if r.disagreements:
